@@ -4,7 +4,9 @@
 // the assignments after the loop are the real code; update_counts is replaced by a recording stub.
 // Bound: ONE split k-mer x 2 samples, bases over 8 representative symbols; stored count and threshold <= 3; all four
 // site filters and every flag.  Contract (C06) — what the row-step and arm checks leave open, namely the glue:
-//   * update_counts(true) runs first exactly when --filter-ambig-as-missing is set, and not otherwise;
+//   * update_counts(true) runs first exactly when --filter-ambig-as-missing is set, and not otherwise; when the
+//     object is kept (update_kmers) it is followed, after the filtering, by update_counts(false): the counts left in
+//     the object are the plain ones (C10: a later command sees counts that depend on the bases only);
 //   * the row survives iff its stored count reaches the threshold and it passes the site filter; the returned number
 //     of removed rows is 1 - survived;
 //   * a surviving row keeps its bases (ambiguous ones replaced by N exactly when --ambig-mask), its count and its
@@ -47,16 +49,23 @@ impl<T> IntoIterator for HashSet<T> {
 
 include!(concat!(env!("CARGO_MANIFEST_DIR"), "/src/verif_frag_filterwhole.rs"));
 
-static mut UPD_CALLS: u32 = 0;
-static mut UPD_FLAG: bool = false;
+// calls of update_counts: flag of each call, and whether the first one saw the still unfiltered table
+static mut UPD_CALLS: usize = 0;
+static mut UPD_FLAGS: [bool; 3] = [false; 3];
 static mut UPD_BEFORE_FILTERING: bool = false;
+static mut UPD_LAST_SAW_KMERS_ALIGNED: bool = false;
 
 fn update_counts_stub<IntT: for<'a> UInt<'a>>(s: &mut MergeSkaArray<IntT>, filter_ambig_as_missing: bool) {
     unsafe {
+        if UPD_CALLS == 0 {
+            // still the unfiltered table: one row
+            UPD_BEFORE_FILTERING = s.variants.nrows() == 1 && s.variant_count.len() == 1;
+        }
+        if UPD_CALLS < 3 {
+            UPD_FLAGS[UPD_CALLS] = filter_ambig_as_missing;
+        }
         UPD_CALLS += 1;
-        UPD_FLAG = filter_ambig_as_missing;
-        // still the unfiltered table: one row
-        UPD_BEFORE_FILTERING = s.variants.nrows() == 1 && s.variant_count.len() == 1;
+        UPD_LAST_SAW_KMERS_ALIGNED = s.split_kmers.len() == s.variants.nrows() && s.variant_count.len() == s.variants.nrows();
     }
 }
 
@@ -124,9 +133,17 @@ fn bounded_filter_whole_1x2() {
     let removed = filter_whole(&mut arr, min_count, famb, &ft, mask, igc, upd);
 
     unsafe {
-        assert!(UPD_CALLS == if famb { 1 } else { 0 });
+        // counting ambiguous bases as missing is for this filter only: update_counts(true) first iff the flag is set;
+        // and if the object is kept afterwards (update_kmers: it may be saved, as `ska weed` does) the plain counts are
+        // restored by a final update_counts(false) on the filtered, aligned table — the stored counts stay a function
+        // of the stored bases (C10)
+        let want_calls = if famb { if upd { 2 } else { 1 } } else { 0 };
+        assert!(UPD_CALLS == want_calls);
         if famb {
-            assert!(UPD_FLAG && UPD_BEFORE_FILTERING);
+            assert!(UPD_FLAGS[0] && UPD_BEFORE_FILTERING);
+            if upd {
+                assert!(!UPD_FLAGS[1] && UPD_LAST_SAW_KMERS_ALIGNED);
+            }
         }
     }
     let keep = count >= min_count && spec_keep(ftc, cells[0][0], cells[0][1], igc);
